@@ -148,6 +148,50 @@ class SObj:
         w = f" @{self.where}" if hasattr(self, "where") else ""
         return f"<{self.cls.name}#{self.oid} {self.fields}{w}>"
 
+    # Instances of frozen (hashable) dataclasses are VALUES in Python: dict / set lookups use the
+    # generated __eq__ / __hash__ over the compare fields.  Everything else hashes by identity.
+    def _value_key(self):
+        dc = None
+        for c in self.cls.mro():
+            if c.dataclass is not None:
+                dc = c.dataclass
+                break
+        if dc is None or not dc.get("eq", True) or not (dc.get("frozen") or dc.get("unsafe_hash")):
+            return None
+        if self.cls.lookup("__eq__")[0] is not None or self.cls.lookup("__hash__")[0] is not None:
+            return None
+        nocmp = getattr(self.cls, "nocompare", ())
+        vals = []
+        for n in self.cls.dc_fields():
+            if n in nocmp:
+                continue
+            if n not in self.fields:
+                return None
+            v = self.fields[n]
+            if isinstance(v, Sym) or isinstance(v, (list, dict, set)):
+                return None
+            if isinstance(v, SObj) and v._value_key() is None:
+                v = ("#id", v.oid)
+            vals.append(v)
+        try:
+            k = (self.cls.qualname, tuple(vals))
+            hash(k)
+            return k
+        except TypeError:
+            return None
+
+    def __hash__(self):
+        k = self._value_key()
+        return hash(k) if k is not None else object.__hash__(self)
+
+    def __eq__(self, other):
+        if self is other:
+            return True
+        if not isinstance(other, SObj) or other.cls is not self.cls:
+            return False
+        k = self._value_key()
+        return k is not None and k == other._value_key()
+
 
 @dataclass(eq=False)
 class EnumVal:
